@@ -33,7 +33,7 @@ def worker(k):
             props = [pid] + [p for p in meta.get("caught_by_quick", []) if p != pid]
             res = {}
             for p in props:
-                c = run(["./check", p, "--no-evidence", "--shards", "5"], cwd="/verif", env=dict(os.environ, MGVERIF_REPO=wt), timeout=3600)
+                c = run(["./check", p, "--no-evidence", "--shards", "4"], cwd="/verif", env=dict(os.environ, MGVERIF_REPO=wt), timeout=3600)
                 res[p] = c.returncode
                 if c.returncode == 1:
                     break
